@@ -1,0 +1,78 @@
+//go:build verif
+// +build verif
+
+package replication
+
+// Exporting shims for the verification harness in /verif. No logic lives
+// here: every function forwards to the unexported function under test.
+
+// VerifCellLength forwards to cellLength.
+func VerifCellLength(data []byte, pos int, typ byte, metadata uint16) (int, error) {
+	return cellLength(data, pos, typ, metadata)
+}
+
+// VerifMetadataRead forwards to metadataRead.
+func VerifMetadataRead(data []byte, pos int, typ byte) (uint16, int, error) {
+	return metadataRead(data, pos, typ)
+}
+
+// VerifReadLenEncInt forwards to readLenEncInt.
+func VerifReadLenEncInt(data []byte, pos int) (uint64, int, bool) {
+	return readLenEncInt(data, pos)
+}
+
+// VerifPrintJSONData forwards to printJSONData.
+func VerifPrintJSONData(data []byte) ([]byte, error) {
+	return printJSONData(data)
+}
+
+// VerifReadVariableLength forwards to readVariableLength.
+func VerifReadVariableLength(data []byte, pos int) (int, int) {
+	return readVariableLength(data, pos)
+}
+
+// VerifParseGTIDSet calls the registered GTID set parser of a flavor.
+func VerifParseGTIDSet(flavor, s string) (GTIDSet, bool, error) {
+	p := gtidSetParsers[flavor]
+	if p == nil {
+		return nil, false, nil
+	}
+	set, err := p(s)
+	return set, true, err
+}
+
+// VerifIntervals exposes the interval lists of a MySQL 5.6 GTID set.
+func VerifIntervals(set Mysql56GTIDSet) map[SID][][2]int64 {
+	out := make(map[SID][][2]int64, len(set))
+	for sid, ivs := range set {
+		l := make([][2]int64, 0, len(ivs))
+		for _, iv := range ivs {
+			l = append(l, [2]int64{iv.start, iv.end})
+		}
+		out[sid] = l
+	}
+	return out
+}
+
+// VerifSetFromIntervals builds a MySQL 5.6 GTID set from interval lists.
+func VerifSetFromIntervals(in map[SID][][2]int64) Mysql56GTIDSet {
+	out := make(Mysql56GTIDSet, len(in))
+	for sid, l := range in {
+		ivs := make([]interval, 0, len(l))
+		for _, p := range l {
+			ivs = append(ivs, interval{start: p[0], end: p[1]})
+		}
+		out[sid] = ivs
+	}
+	return out
+}
+
+// VerifBitmapData exposes the bytes and bit count of a Bitmap.
+func VerifBitmapData(b Bitmap) ([]byte, int) {
+	return b.data, b.count
+}
+
+// VerifNewBitmap forwards to newBitmap.
+func VerifNewBitmap(data []byte, pos int, count int) (Bitmap, int) {
+	return newBitmap(data, pos, count)
+}
